@@ -1,12 +1,13 @@
 (* C13 — Send, Quit, Wait, Println and Printf never hang once the program has ended. *)
-From Coq Require Import List Bool NArith Arith.
+From Coq Require Import List Bool NArith Arith String.
 Import ListNotations.
 From BT Require Import Model.Skel Model.SkelTie Proof.SkelCert Proof.SkelProofs.
 
 (* Send selects on ctx.Done; Quit, Println and Printf go through Send and have no channel
    operation of their own; Wait is one receive from p.finished, which is made once (in
    NewProgram) and only ever closed; p.msgs is a rendezvous channel (Send before the loop blocks) *)
-Theorem C13_tie : api_guarded = true /\ rendezvous_channels = true /\ nothing_unsupported = true /\ G = guards_of_gen.
+Theorem C13_tie : api_guarded = true /\ rendezvous_channels = true /\ nothing_unsupported = true /\ G = guards_of_gen /\
+  bare_ops_ok = true /\ shapes_ok_for ["Send"; "Quit"; "Wait"; "Println"; "Printf"; "Kill"; "shutdown"]%string = true.
 Proof. vm_compute. repeat split. Qed.
 Print Assumptions C13_tie.
 
